@@ -30,7 +30,10 @@ EXTERNAL_RAISES = {
     "inspect.getsourcefile": ["TypeError"],
     "inspect.getfullargspec": ["TypeError"],
     "importlib.import_module": ["ModuleNotFoundError"],
-    "codefind.find_code": ["KeyError", "ModuleNotFoundError", "TypeError"],      # TypeError: importlib refuses a relative module name ("/.x/f") without a package
+    # read off codefind's source (registry.find_code: `filename = importlib.import_module(module).__file__; assert filename is not None;
+    # return self.currcodes[path]`): TypeError = importlib refuses a relative module name ("/.x/f") without a package; AttributeError = the
+    # module has no __file__ (built-in modules: "/sys/exit"); AssertionError = __file__ is None (namespace packages)
+    "codefind.find_code": ["KeyError", "ModuleNotFoundError", "TypeError", "AttributeError", "AssertionError"],
     "ast.parse": ["SyntaxError"],
     "tokenize.tokenize": ["SyntaxError"],
 }
